@@ -77,14 +77,12 @@ pub fn complete(
             }
         } else if let Some((flag, value)) = arg.to_long() {
             if let Ok(flag) = flag {
+                // Hidden aliases are accepted by the parser too
                 let opt = current_cmd.get_arguments().find(|a| {
-                    let longs = a.get_long_and_visible_aliases();
-                    let is_find = longs.map(|v| {
-                        let mut iter = v.into_iter();
-                        let s = iter.find(|s| *s == flag);
-                        s.is_some()
-                    });
-                    is_find.unwrap_or(false)
+                    a.get_long() == Some(flag)
+                        || a.get_all_aliases()
+                            .map(|v| v.contains(&flag))
+                            .unwrap_or(false)
                 });
 
                 if let Some(opt) = opt {
@@ -597,14 +595,12 @@ fn parse_shortflags<'c, 's>(
         match short.next_flag() {
             Some(Ok(opt)) => {
                 leading_flags.push(opt);
+                // Hidden aliases are accepted by the parser too
                 let opt = cmd.get_arguments().find(|a| {
-                    let shorts = a.get_short_and_visible_aliases();
-                    let is_find = shorts.map(|v| {
-                        let mut iter = v.into_iter();
-                        let c = iter.find(|c| *c == opt);
-                        c.is_some()
-                    });
-                    is_find.unwrap_or(false)
+                    a.get_short() == Some(opt)
+                        || a.get_all_short_aliases()
+                            .map(|v| v.contains(&opt))
+                            .unwrap_or(false)
                 });
                 if opt
                     .map(|o| o.get_num_args().expect("built").takes_values())
